@@ -784,6 +784,31 @@ def explore_entry(e, tier, deadline_at):
                     fail("O1.result-depends-on-schedule:" + e.label(), "kinds=%s workers=%d script=%s" % (kl, w, script),
                          "bitwise equal to the run without a pool", first_diff(ref, c1))
         res["states"] += len(seen_states)
+        # ---- O1 at the dispatch threshold (thorough, all-plain arguments): n = 201 with EVERY single cut 1..200 in both
+        # orders; n = 200 and 199 must give the same result with a pool installed (the pool may or may not be entered)
+        if thorough and kinds == combos[0] and x0 is None and time.time() < deadline_at:
+            for n2, every in ((201, True), (200, False), (199, False)):
+                try:
+                    b2 = Bundle(e, kinds, n2)
+                except Exception:               # noqa: BLE001
+                    break
+                verifpool.uninstall()
+                rr, xr, ar, kr = run_call(fn, b2)
+                if xr is not None:
+                    continue
+                refn = canon(rr, ar, kr)
+                verifpool.install()
+                for w, script in schedules(n2, 1, (2,), all_tid_maps=False, every_cut=every, reduced=True):
+                    verifpool.set_workers(w); verifpool.set_script(script); verifpool.reset_stats()
+                    r1, x1, a1, k1 = run_call(fn, b2)
+                    res["calls"] += 1; res["schedules"] += 1
+                    if verifpool.stats()[3]:
+                        continue                  # script does not fit (cannot happen: pieces are within [0,n2))
+                    if x1 is not None or canon(r1, a1, k1) != refn:
+                        fail("O1.result-depends-on-schedule(n=%d):" % n2 + e.label(), "kinds=%s workers=%d script=%s" % (kl, w, script),
+                             "bitwise equal to the run without a pool", x1 or "different bytes")
+                res["classes"]["threshold-n=%d" % n2] += 1
+            verifpool.install()
         # ---- O2: footprint of single pieces (in-place outputs and pure inputs)
         if x0 is None:
             verifpool.set_workers(3)
